@@ -80,8 +80,11 @@ def prefix(tokeniser: 'Tokeniser') -> IPRange:
         if ':' in ip:
             mask = 128
 
-    tokeniser.afi = IP.toafi(ip)
-    iprange = IPRange(IP.pton(ip), mask)
+    try:
+        tokeniser.afi = IP.toafi(ip)
+        iprange = IPRange(IP.pton(ip), mask)
+    except OSError:
+        raise ValueError(f"'{ip}' is not a valid IP address") from None
 
     if iprange.address() & iprange.mask.hostmask() != 0:
         raise ValueError(
@@ -94,7 +97,12 @@ def prefix(tokeniser: 'Tokeniser') -> IPRange:
 def path_information(tokeniser: 'Tokeniser') -> PathInfo:
     pi = tokeniser()
     if pi.isdigit():
+        if int(pi) > _SIZE_L:
+            raise ValueError(f"'{pi}' is not a valid path-information\n  Must be below 2^32")
         return PathInfo.make_from_integer(int(pi))
+    parts = pi.split('.')
+    if len(parts) != _IPV4_PARTS or not all(_.isdigit() and int(_) <= _SIZE_B for _ in parts):
+        raise ValueError(f"'{pi}' is not a valid path-information\n  Format: <number below 2^32> or <IPv4 address>")
     return PathInfo.make_from_ip(pi)
 
 
@@ -102,7 +110,10 @@ def next_hop(tokeniser: 'Tokeniser', afi: AFI | None = None) -> tuple[IP | IPSel
     value = tokeniser()
     if value.lower() == 'self':
         return IPSelf(tokeniser.afi), NextHopSelf(tokeniser.afi)
-    ip = IP.from_string(value)
+    try:
+        ip = IP.from_string(value)
+    except OSError:
+        raise ValueError(f"'{value}' is not a valid next-hop\n  Format: <IP address> or self") from None
     if ip.afi == AFI.ipv4 and afi == AFI.ipv6:
         ip = IP.from_string('::ffff:{}'.format(ip))
     return ip, NextHop.from_string(ip.top())
@@ -142,6 +153,8 @@ def attribute(tokeniser: 'Tokeniser') -> GenericAttribute:
         code_int: int = int(code, 16)
     except ValueError:
         raise ValueError(f"'{code}' is not a valid attribute code\n  Must be hexadecimal (e.g., 0x01)") from None
+    if code_int > 0xFF:  # noqa: PLR2004
+        raise ValueError(f"'{code}' is not a valid attribute code\n  Must fit in one byte (0x00 to 0xff)")
 
     flag = tokeniser().lower()
     if not flag.startswith('0x'):
@@ -150,6 +163,8 @@ def attribute(tokeniser: 'Tokeniser') -> GenericAttribute:
         flag_int: int = int(flag, 16)
     except ValueError:
         raise ValueError(f"'{flag}' is not a valid attribute flag\n  Must be hexadecimal (e.g., 0x40)") from None
+    if flag_int > 0xFF:  # noqa: PLR2004
+        raise ValueError(f"'{flag}' is not a valid attribute flag\n  Must fit in one byte (0x00 to 0xff)")
 
     data = tokeniser().lower()
     if not data.startswith('0x'):
@@ -303,7 +318,7 @@ def aggregator(tokeniser: 'Tokeniser') -> Aggregator:
         as_number, address = agg.split(':')
         local_as = ASN.from_string(as_number)
         local_address = RouterID(address)
-    except (ValueError, IndexError):
+    except (ValueError, IndexError, OSError):
         raise ValueError(
             f"'{agg}' is not a valid aggregator\n"
             f'  Format: <ASN>:<router-id> or (<ASN>:<router-id>) (e.g., 65001:192.0.2.1)'
@@ -322,7 +337,10 @@ def originator_id(tokeniser: 'Tokeniser') -> OriginatorID:
         raise ValueError(f"'{value}' is not a valid originator-id\n  Format: IPv4 address (e.g., 192.0.2.1)")
     if not all(_.isdigit() for _ in value.split('.')):
         raise ValueError(f"'{value}' is not a valid originator-id\n  Format: IPv4 address (e.g., 192.0.2.1)")
-    return OriginatorID.from_string(value)
+    try:
+        return OriginatorID.from_string(value)
+    except OSError:
+        raise ValueError(f"'{value}' is not a valid originator-id\n  Format: IPv4 address (e.g., 192.0.2.1)") from None
 
 
 def cluster_list(tokeniser: 'Tokeniser') -> ClusterList:
@@ -357,10 +375,10 @@ def _community(value: str) -> Community:
 
         prefix_int, suffix_int = int(prefix), int(suffix)
 
-        if prefix_int > Community.MAX:
+        if prefix_int > _SIZE_H:
             raise ValueError('invalid community {} (prefix too large)'.format(value))
 
-        if suffix_int > Community.MAX:
+        if suffix_int > _SIZE_H:
             raise ValueError('invalid community {} (suffix too large)'.format(value))
 
         return Community(pack('!L', (prefix_int << 16) + suffix_int))
@@ -412,13 +430,13 @@ def _large_community(value: str) -> LargeCommunity:
     if separator > 0:
         prefix, affix, suffix = value.split(':')
 
-        if not any(map(lambda c: c.isdigit(), [prefix, affix, suffix])):
+        if not all(map(lambda c: c.isdigit(), [prefix, affix, suffix])):
             raise ValueError('invalid community {}'.format(value))
 
         prefix_int, affix_int, suffix_int = map(int, [prefix, affix, suffix])
 
         for i in [prefix_int, affix_int, suffix_int]:
-            if i > LargeCommunity.MAX:
+            if i > _SIZE_L:
                 raise ValueError('invalid community %i in %s too large' % (i, value))
 
         return LargeCommunity(pack('!LLL', prefix_int, affix_int, suffix_int))
@@ -560,9 +578,9 @@ def _encode(command: str, components: list[int], parts: list[str]) -> tuple[byte
 
 
 def _extended_community_hex(value: str) -> ExtendedCommunity:
-    # we could raise if the length is not 8 bytes (16 chars)
-    if len(value) % 2:
-        raise ValueError('invalid extended community {}'.format(value))
+    # 0x + 8 bytes
+    if len(value) != 2 + 2 * 8:
+        raise ValueError('invalid extended community {} (must be 8 bytes)'.format(value))
     raw = b''.join(bytes([int(value[_ : _ + 2], 16)]) for _ in range(2, len(value), 2))
     return cast(ExtendedCommunity, ExtendedCommunity.unpack_attribute(raw, None))
 
